@@ -12,7 +12,8 @@ RULE = ("generated shots with wind lists of 0..5 segments (speeds incl. 0, any d
         "until-distances inside/beyond the range, any order, occasional duplicates); one metamorphic relation per case out "
         "of {permutation, null-winds, beyond-last, split, causality, mirror, signs, in-place-edit}; non-trivial = the "
         "base list has >= 2 segments with distinct until-distances inside the range and speed > 1 fps (or, for signs / "
-        "null relations, the relation's own wind is non-zero); distinct = distinct case dicts")
+        "null relations, the relation's own wind is non-zero); distinct = distinct case dicts; in 4 of 7 cases the calculator under test has a past (build.calculator prior: extra-data fire / "
+        "subsonic fire / zeroing / RangeError for another fixed shot)")
 ASSUMPTIONS = ["rows compared on raw values: bit-identical for permutation / causality / in-place-edit, 1e-12 relative for null / beyond-last / split / mirror",
                "split points keep >= 2 maximum steps from the neighbouring boundaries (the wind sock advances one segment per step: first-order effect covered by C01)",
                "'head wind lowers the path' only for level or downward launches (on a rising path the first-order effect on height changes sign along the way); time ordering for all",
